@@ -258,3 +258,76 @@ package variants
 //@   before call:GetVariantsPair#1: assert [c11.args] len(record.Seq) == len(ref.Seq) && record == recv(cMSA)[range_i]
 //@   before call:GetVariantsPair#1: assert [c11.wiring] sameslice(arg(0), ref.Seq) && sameslice(arg(1), record.Seq) && arg(2) == ref.ID && arg(3) == record.ID && arg(4) == record.Idx && sameslice(arg(5), cdsregions) && sameslice(arg(6), intregions) && sameslice(arg(7), offsetRefCoord) && sameslice(arg(8), offsetMSACoord)
 //@   before send#2: assert [c11.forward] err == nil && AS.Queryname == record.ID && AS.Idx == record.Idx
+
+//@ # C14: the integer layer of region construction from GFF rows that share an ID.
+//@ # GFF3: the phase of a CDS row is the number of bases to skip at the row's 5' end to reach the next codon; only the
+//@ # 5'-most row's phase moves the start of the coding sequence - the later rows continue the frame, so their whole
+//@ # extent belongs to the feature. rowLo/rowHi: the coordinates row r contributes (ascending file order assumed).
+//@ spec gffLoP(fs []gff.Feature, a int) int = fs[a].Start + ite(a == 0, fs[a].Phase, 0)
+//@ spec gffLenP(fs []gff.Feature, a int) int = fs[a].End - gffLoP(fs, a) + 1
+//@ spec gffHiM(fs []gff.Feature, a int) int = fs[a].End - ite(a == len(fs) - 1, fs[a].Phase, 0)
+//@ spec gffLenM(fs []gff.Feature, a int) int = gffHiM(fs, a) - fs[a].Start + 1
+//@ func CDSRegion2fromGFF
+//@   requires len(fs) >= 1 && implies(in(fs[0].Attributes, "Name"), len(fs[0].Attributes["Name"]) >= 1)
+//@   requires forall(w, 0, len(fs), fs[w].Start >= 1 && fs[w].End <= len(refSeqDegapped) && 0 <= fs[w].Phase && fs[w].Phase <= 2 && fs[w].Start + fs[w].Phase <= fs[w].End)
+//@   # ghost: gStart[a] = index in pos where row a's positions begin; gRow[y] = the row position y came from
+//@   ghost gStart map[int]int = map[int]int{}
+//@   ghost gRow map[int]int = map[int]int{}
+//@   after append#1: do gRow[len(pos)-1] = range_i1
+//@   loop 1:
+//@     invariant freshslice(pos) && r.Name == ite(in(fs[0].Attributes, "Name"), fs[0].Attributes["Name"][0], "") && forall(a, 0, range_i, fs[a].Strand == "+")
+//@     invariant [c14.rows.plus] gStart[0] == 0 && len(pos) == gStart[range_i] && forall(a, 0, range_i, gStart[a+1] == gStart[a] + gffLenP(fs, a))
+//@     invariant [c14.mono.plus] forall(a, 0, range_i, gStart[a+1] <= gStart[range_i])
+//@     invariant [c14.rowof.plus] forall(y, 0, len(pos), 0 <= gRow[y] && gRow[y] < range_i && gStart[gRow[y]] <= y && y < gStart[gRow[y]+1])
+//@     invariant [c14.content.plus] forall(y, 0, len(pos), pos[y] == gffLoP(fs, gRow[y]) + y - gStart[gRow[y]])
+//@     invariant implies(range_i >= 1, len(pos) >= 1)
+//@     invariant forall(y, 0, len(pos), 1 <= pos[y] && pos[y] <= len(refSeqDegapped))
+//@     do-end gStart[range_i + 1] = len(pos)
+//@   loop 2:
+//@     invariant freshslice(pos) && r.Name == ite(in(fs[0].Attributes, "Name"), fs[0].Attributes["Name"][0], "") && forall(a, 0, range_i1, fs[a].Strand == "+")
+//@     invariant [c14.rows.plus] gStart[0] == 0 && forall(a, 0, range_i1, gStart[a+1] == gStart[a] + gffLenP(fs, a))
+//@     invariant [c14.mono.plus] forall(a, 0, range_i1, gStart[a+1] <= gStart[range_i1])
+//@     invariant [c14.row.plus] gffLoP(fs, range_i1) <= i && i <= f.End + 1 && len(pos) == gStart[range_i1] + i - gffLoP(fs, range_i1)
+//@     invariant [c14.rowof.plus] forall(y, 0, len(pos), 0 <= gRow[y] && gRow[y] <= range_i1 && gStart[gRow[y]] <= y && implies(gRow[y] < range_i1, y < gStart[gRow[y]+1]))
+//@     invariant [c14.content.plus] forall(y, 0, len(pos), pos[y] == gffLoP(fs, gRow[y]) + y - gStart[gRow[y]])
+//@     invariant implies(range_i1 >= 1, len(pos) >= 1)
+//@     invariant forall(y, 0, len(pos), 1 <= pos[y] && pos[y] <= len(refSeqDegapped))
+//@   ghost gStartM map[int]int = map[int]int{}
+//@   ghost gRowM map[int]int = map[int]int{}
+//@   after append#2: do gRowM[len(pos)-1] = j
+//@   loop 4:
+//@     invariant -1 <= j && j <= len(fs) - 1 && freshslice(pos) && r.Name == ite(in(fs[0].Attributes, "Name"), fs[0].Attributes["Name"][0], "") && forall(a, j + 1, len(fs), fs[a].Strand == "-")
+//@     invariant [c14.rows.minus] gStartM[len(fs)-1] == 0 && forall(a, j + 1, len(fs), gStartM[a-1] == gStartM[a] + gffLenM(fs, a) && gStartM[a-1] <= gStartM[j]) && len(pos) == gStartM[j]
+//@     invariant [c14.rowof.minus] forall(y, 0, len(pos), j < gRowM[y] && gRowM[y] <= len(fs) - 1 && gStartM[gRowM[y]] <= y && y < gStartM[gRowM[y]-1])
+//@     invariant [c14.content.minus] forall(y, 0, len(pos), pos[y] == gffHiM(fs, gRowM[y]) - (y - gStartM[gRowM[y]]))
+//@     invariant implies(j < len(fs) - 1, len(pos) >= 1)
+//@     invariant forall(y, 0, len(pos), 1 <= pos[y] && pos[y] <= len(refSeqDegapped))
+//@     do-start gStartM[len(fs)-1] = 0
+//@     do-end gStartM[j - 1] = len(pos)
+//@   loop 5:
+//@     invariant 0 <= j && j <= len(fs) - 1 && freshslice(pos) && r.Name == ite(in(fs[0].Attributes, "Name"), fs[0].Attributes["Name"][0], "") && forall(a, j, len(fs), fs[a].Strand == "-")
+//@     invariant [c14.rows.minus] gStartM[len(fs)-1] == 0 && forall(a, j + 1, len(fs), gStartM[a-1] == gStartM[a] + gffLenM(fs, a) && gStartM[a-1] <= gStartM[j])
+//@     invariant [c14.row.minus] f == fs[j] && fs[j].Start - 1 <= i && i <= gffHiM(fs, j) && len(pos) == gStartM[j] + gffHiM(fs, j) - i
+//@     invariant [c14.rowof.minus] forall(y, 0, len(pos), j <= gRowM[y] && gRowM[y] <= len(fs) - 1 && gStartM[gRowM[y]] <= y && implies(gRowM[y] > j, y < gStartM[gRowM[y]-1]))
+//@     invariant [c14.content.minus] forall(y, 0, len(pos), pos[y] == gffHiM(fs, gRowM[y]) - (y - gStartM[gRowM[y]]))
+//@     invariant implies(j < len(fs) - 1, len(pos) >= 1)
+//@     invariant forall(y, 0, len(pos), 1 <= pos[y] && pos[y] <= len(refSeqDegapped))
+//@   loop 3:
+//@     invariant len(refSeqFeat) == range_i && forall(y, 0, range_i, refSeqFeat[y] == refSeqDegapped[r.Positions[y]-1])
+//@   loop 6:
+//@     invariant len(refSeqFeat) == range_i && forall(y, 0, range_i, refSeqFeat[y] == refSeqDegapped[r.Positions[y]-1])
+//@   ensures [strand] implies(result2 == nil && fs[0].Strand == "+", result1.Strand == 1 && forall(a, 0, len(fs), fs[a].Strand == "+")) && implies(result2 == nil && fs[0].Strand == "-", result1.Strand == -1 && forall(a, 0, len(fs), fs[a].Strand == "-")) && implies(fs[0].Strand == ".", result2 != nil)
+//@   ensures [name] result1.Name == ite(in(fs[0].Attributes, "Name"), fs[0].Attributes["Name"][0], "")
+//@   ensures [local.positions.plus] implies(result2 == nil && fs[0].Strand == "+", len(result1.Positions) == gStart[len(fs)] && forall(y, 0, len(result1.Positions), 0 <= gRow[y] && gRow[y] < len(fs) && gStart[gRow[y]] <= y && y < gStart[gRow[y]+1] && result1.Positions[y] == gffLoP(fs, gRow[y]) + y - gStart[gRow[y]]))
+//@   ensures [local.len.minus] implies(result2 == nil && fs[0].Strand == "-", len(result1.Positions) == gStartM[-1])
+//@   ensures [local.positions.minus] implies(result2 == nil && fs[0].Strand == "-", forall(y, 0, len(result1.Positions), 0 <= gRowM[y] && gRowM[y] < len(fs) && gStartM[gRowM[y]] <= y && y < gStartM[gRowM[y]-1] && result1.Positions[y] == gffHiM(fs, gRowM[y]) - (y - gStartM[gRowM[y]])))
+//@   ensures [bounds] implies(result2 == nil && (fs[0].Strand == "+" || fs[0].Strand == "-"), len(result1.Positions) >= 1 && forall(y, 0, len(result1.Positions), result1.Start <= result1.Positions[y] && result1.Positions[y] <= result1.Stop && 1 <= result1.Positions[y] && result1.Positions[y] <= len(refSeqDegapped)))
+//@   ensures [translation] implies(result2 == nil && (fs[0].Strand == "+" || fs[0].Strand == "-"), 3 * len(result1.Translation) == len(result1.Positions))
+
+//@ # C14, GenBank side glue: the region's positions are the location's positions from /codon_start on, a multiple of 3;
+//@ # name, translation (+ stop), strand and the start/stop bounds as documented.
+//@ func CDSRegion2fromGenbank
+//@   before return#6: assert [c14.gb.positions] len(r.Positions) == len(temp) - (codon_start - 1) && forall(k, 0, len(r.Positions), r.Positions[k] == temp[codon_start - 1 + k]) && len(r.Positions) % 3 == 0
+//@   before return#6: assert [c14.gb.fields] r.Name == f.Info["gene"] && r.Translation == f.Info["translation"] + "*" && r.Strand == ite(reverse, -1, 1) && r.Whichtype == "protein-coding"
+//@   before return#6: assert [c14.gb.bounds] forall(k, 0, len(r.Positions), r.Start <= r.Positions[k] && r.Positions[k] <= r.Stop)
+//@   ensures [err.gene] implies(!in(f.Info, "gene") || !in(f.Info, "codon_start"), result2 != nil)
